@@ -78,7 +78,21 @@ def check_case(case, want=("C01",)):
         spec = spec_from_forest(case["f"], case["pal"], 1, case["srs"])
         names = [c["n"] for c in spec["comps"]]
         spec = with_phases(spec, PH2, dict(zip(names, case["assign"])))
-        phys.solve_and_check(res, spec, want, ta=25.0)
+        s_, obs_ = phys.solve_and_check(res, spec, want, ta=25.0)
+        if obs_ is not None and any(isinstance(a, dict) for a in case["assign"]):
+            # the same system loaded from a file in which the per-phase load values carry a negative sign
+            from ..sysmodel import reload_negated
+            try:
+                s2 = reload_negated(s_, "c01")
+                o2 = observe(quiet_call(s2.solve)[0])
+                sub = Res()
+                for ph in spec["phases"]:
+                    phys.check_phase(sub, spec, o2, ph, 25.0, want)
+                res.viol += [(("C01.file-with-negative-phase-values",) + sig, det) for sig, det in sub.viol]
+            except (RuntimeError, ValueError):
+                pass
+            except Exception as e:
+                res.v(("C01.file-with-negative-phase-values", "raises", type(e).__name__), str(e)[:200])
         res.nontrivial = 1
         return res
     if case["fam"] == "spread":
